@@ -22,8 +22,10 @@ def run(ctx):
                    "c: a foreign context is assigned to a flow only under the explicit `context` argument; every new FlowState gets fresh containers"]
     ctx.not_decided = ["value identity for all signatures and argument types (evaluation semantics)"]
     a_positional(ctx)
+    a_reference_match(ctx)
     b_return_channel(ctx)
     c_context(ctx)
+    c_no_module_state(ctx)
 
 
 def _fstring_dollar(e):
@@ -117,6 +119,117 @@ def a_positional(ctx):
               "after the named/default pass, `$<idx>` (idx = position in the declared parameter list) overrides the parameter of that position", line=fn.lineno)
     ctxupd = any(isinstance(c, ast.Call) and src(c.func) == "flow_state.context.update" for c in ast.walk(loops[0])) if ok else False
     ctx.check("C08.a.binding", SM, "create_flow_instance", "parameters visible as locals", ctxupd, "bound parameters are copied into the instance's own context", line=fn.lineno)
+
+
+def a_reference_match(ctx):
+    """An `activate`d flow is re-used only when the reference instance was bound to exactly the same parameter values:
+    every clause that can set `matched` compares the instance's bound value with what the call would bind."""
+    sm = ctx.tree.ast(SM)
+    fn = find_function(sm, "_get_reference_activated_flow_instance")
+    if fn is None:
+        raise AnalysisError("_get_reference_activated_flow_instance not found", anchor=SM + "::_get_reference_activated_flow_instance")
+    loops = [l for l in ast.walk(fn) if isinstance(l, ast.For) and "parameters" in src(l.iter) and src(getattr(l.iter, "func", l.iter)) == "enumerate"]
+    if not loops:
+        raise AnalysisError("parameter comparison loop not found", anchor=SM + "::_get_reference_activated_flow_instance")
+    loop = loops[0]
+    # the variable holding the instance's bound value
+    bound = [a for a in loop.body if isinstance(a, ast.Assign) and isinstance(a.targets[0], ast.Name) and re.search(r"\.arguments\[", src(a.value))]
+    bv = bound[0].targets[0].id if bound else None
+    clauses = []
+    for n in ast.walk(loop):
+        if isinstance(n, ast.Assign) and src(n.targets[0]) == "matched" and not (isinstance(n.value, ast.Constant)):
+            clauses.append((n, n.value))
+        elif isinstance(n, ast.AugAssign) and src(n.target) == "matched":
+            clauses.append((n, n.value))
+    ctx.floor("C08.a.reference-match", SM, "clauses that accept a reference instance", len(clauses), 3)
+    kinds = set()
+    for n, v in clauses:
+        cmps = [c for c in ast.walk(v) if isinstance(c, ast.Compare) and len(c.ops) == 1 and isinstance(c.ops[0], ast.Eq)
+                and (src(c.left) == bv or src(c.comparators[0]) == bv)]
+        ok = bool(cmps) and not (isinstance(v, ast.BoolOp) and isinstance(v.op, ast.Or))
+        # the comparison must be a conjunct (not optional)
+        if ok and isinstance(v, ast.BoolOp):
+            ok = any(c in v.values for c in cmps)
+        if cmps:
+            other = cmps[0].comparators[0] if src(cmps[0].left) == bv else cmps[0].left
+            o = re.sub(r"\s", "", src(other))
+            if "default_value_expr" in o and "eval_expression" in o:
+                kinds.add("default")
+            elif _fstring_dollar(getattr(other, "slice", None)) is not None:
+                kinds.add("positional")
+            elif o.endswith(".name]"):
+                kinds.add("named")
+        ctx.check("C08.a.reference-match", SM, fn.name, first_line(n, 70), ok,
+                  "the clause accepts the reference instance only if its bound value equals the value this call binds" if ok else
+                  "this clause sets `matched` without comparing the reference instance's bound value `%s`: a call with other (or defaulted) arguments is served by an instance bound to different values" % bv,
+                  line=n.lineno)
+    ctx.check("C08.a.reference-match", SM, fn.name, "named/positional/default all compared", kinds == {"named", "positional", "default"},
+              "the three binding forms (named, positional `$<idx>`, default expression) each have a value comparison: %s" % sorted(kinds), line=loop.lineno)
+    rej = any(isinstance(i, ast.If) and re.sub(r"\s", "", src(i.test)) == "notmatched" and any(isinstance(s, (ast.Break, ast.Continue, ast.Assign)) for s in i.body) for i in loop.body)
+    ctx.check("C08.a.reference-match", SM, fn.name, "mismatch rejects", rej, "a parameter for which no clause matched rejects the candidate instance", line=loop.lineno)
+
+
+RUNTIME_MODULES = ["nemoguardrails/colang/v2_x/runtime/eval.py", SM, FLOWS, "nemoguardrails/colang/v2_x/runtime/utils.py"]
+MUTATORS = {"update", "setdefault", "append", "add", "extend", "insert", "pop", "clear", "appendleft"}
+
+
+def c_no_module_state(ctx):
+    """Values bound to one flow instance (evaluated defaults, locals) must not be reachable from another instance through the module:
+    the interpreter modules keep no module-level container that a function writes, and memoise no evaluation."""
+    n_mod = 0
+    for path in RUNTIME_MODULES:
+        if not ctx.tree.exists(path):
+            continue
+        n_mod += 1
+        t = ctx.tree.ast(path)
+        containers = {}
+        for s in t.body:
+            tgt = val = None
+            if isinstance(s, ast.Assign) and isinstance(s.targets[0], ast.Name):
+                tgt, val = s.targets[0].id, s.value
+            elif isinstance(s, ast.AnnAssign) and isinstance(s.target, ast.Name) and s.value is not None:
+                tgt, val = s.target.id, s.value
+            if tgt is None:
+                continue
+            if isinstance(val, (ast.Dict, ast.List, ast.Set, ast.DictComp, ast.ListComp, ast.SetComp)) or \
+                    (isinstance(val, ast.Call) and src(val.func).split(".")[-1] in ("dict", "list", "set", "defaultdict", "OrderedDict", "deque", "WeakValueDictionary", "LRUCache")):
+                containers[tgt] = s
+        bad = []
+        for fn in functions(t):
+            for d in fn.decorator_list:
+                dn = src(d.func if isinstance(d, ast.Call) else d).split(".")[-1]
+                if dn in ("lru_cache", "cache", "cached", "memoize"):
+                    bad.append((fn.lineno, qualname(fn), "@%s" % dn, "memoises results across flow instances"))
+            for n in walk_no_nested(fn):
+                if isinstance(n, ast.Global):
+                    bad.append((n.lineno, qualname(fn), first_line(n), "rebinds module state"))
+                tg = []
+                if isinstance(n, ast.Assign):
+                    tg = n.targets
+                elif isinstance(n, (ast.AugAssign, ast.AnnAssign)):
+                    tg = [n.target]
+                for x in tg:
+                    if isinstance(x, ast.Subscript) and isinstance(x.value, ast.Name) and x.value.id in containers and not _shadowed(fn, x.value.id):
+                        bad.append((n.lineno, qualname(fn), first_line(n), "stores into module-level `%s`" % x.value.id))
+                if isinstance(n, ast.Call) and isinstance(n.func, ast.Attribute) and n.func.attr in MUTATORS and isinstance(n.func.value, ast.Name) \
+                        and n.func.value.id in containers and not _shadowed(fn, n.func.value.id):
+                    bad.append((n.lineno, qualname(fn), first_line(n), "mutates module-level `%s`" % n.func.value.id))
+        ctx.check("C08.c.no-module-state", path, "<module>", "no function writes module-level state", not bad,
+                  "%d module-level container(s) %s; none is written by a function, nothing is memoised" % (len(containers), sorted(containers)), line=1)
+        for ln, unit, cons, why in bad:
+            ctx.check("C08.c.no-module-state", path, unit, cons, False,
+                      "%s: an object evaluated for one flow instance (e.g. a mutable parameter default) is handed to every later instance" % why, line=ln)
+    ctx.floor("C08.c.no-module-state", "nemoguardrails/colang/v2_x/runtime", "interpreter modules analysed", n_mod, 4)
+
+
+def _shadowed(fn, name):
+    args = [a.arg for a in fn.args.args + fn.args.kwonlyargs + fn.args.posonlyargs]
+    if name in args:
+        return True
+    for n in walk_no_nested(fn):
+        if isinstance(n, ast.Assign) and any(isinstance(t, ast.Name) and t.id == name for t in n.targets):
+            return True
+    return False
 
 
 def _block_of(stmt):
